@@ -12,6 +12,9 @@ fn main() -> Result<(), Box<dyn std::error::Error>> {
         .build_client(true)
         .compile(&["proto/kyrodb.proto"], &["proto"])?;
 
+    // Verification hooks are guarded by `--cfg kyrodb_verif` (off by default).
+    println!("cargo:rustc-check-cfg=cfg(kyrodb_verif)");
+
     // Rebuild when proto file changes
     println!("cargo:rerun-if-changed=proto/kyrodb.proto");
 
